@@ -1170,6 +1170,95 @@ def gen_real_specs(ctx, lits):
     return specs
 
 
+OPT_CLASSES = ['LinearGAM', 'LinearGAM-known', 'PoissonGAM', 'LogisticGAM', 'GammaGAM']
+OPT_MAX_ITER = [1, 2, 3, 4, 6, 10, 25, 200]
+OPT_TOL = [1e-8, 1e-10, 1e-12, 1e-6, 1e-4, 1e-3]
+OPT_LAMS = [1e-3, 0.01, 0.1, 0.6, 1.0, 10.0, 100.0, 1e3]     # far apart: a warm start is far from the next optimum
+
+
+def gen_opt_specs(ctx, lits):
+    """model-level settings that steer the optimiser (iteration budget, stopping tolerance), on the model and as grid
+    dimensions: a candidate's score and coefficients are those of an independent fit with the same settings, whatever was
+    fitted before it (fitted / unfitted start, grid as given and reversed), also when nothing converges"""
+    rng = ctx.subrng('real.opt')
+    quick = ctx.tier == 'quick'
+    specs = []
+
+    def two_terms(ns=7):
+        return [dict(kind='s', feature=0, n_splines=ns, spline_order=3, lam=0.6), dict(kind='s', feature=1, n_splines=ns, spline_order=3, lam=0.6)]
+    # full product first: class x small budget x fitted (grid over lam only; then budget / tolerance as grid dimensions)
+    k = 0
+    for cls in OPT_CLASSES:
+        for mi in (1, 2, 3):
+            for fitted in (False, True):
+                k += 1
+                if cls.startswith('LinearGAM') and mi > 1:
+                    continue
+                specs.append(dict(cls=cls, scale=0.05 if cls == 'LinearGAM-known' else None, terms=two_terms(6 + k % 3), n=[80, 100, 120][k % 3], d=3,
+                                  data_seed=500 + k, fitted=fitted, keep_best=bool(k % 2), return_scores=True, objective='auto' if k % 4 else None,
+                                  grids=[dict(param='lam', desc=dict(kind='1d', values=[1e3, 1.0, 0.01, 10.0][:3 + k % 2], container='list'))],
+                                  weights=False, exposure=(cls == 'PoissonGAM' and mi == 2), tol=1e-8, max_iter=mi, reverse=True))
+    for cls in ('PoissonGAM', 'LogisticGAM', 'GammaGAM'):
+        for fitted in (False, True):
+            k += 1
+            specs.append(dict(cls=cls, scale=None, terms=two_terms(6), n=100, d=3, data_seed=600 + k, fitted=fitted, keep_best=not fitted,
+                              return_scores=True, objective='auto',
+                              grids=[dict(param='max_iter', desc=dict(kind='1d', values=[2, 200, 1], container='list')),
+                                     dict(param='lam', desc=dict(kind='1d', values=[100.0, 0.01], container='array'))],
+                              weights=False, exposure=False, tol=1e-8, max_iter=3 if fitted else 200, reverse=True))
+            specs.append(dict(cls=cls, scale=None, terms=two_terms(6), n=100, d=3, data_seed=650 + k, fitted=fitted, keep_best=fitted,
+                              return_scores=True, objective='auto',
+                              grids=[dict(param='lam', desc=dict(kind='1d', values=[0.01, 100.0], container='list')),
+                                     dict(param='tol', desc=dict(kind='1d', values=[1e-3, 1e-10, 1e-6], container='list'))],
+                              weights=False, exposure=False, tol=1e-8, max_iter=[4, 6][k % 2], reverse=True))
+    n_random = 40 if quick else 900
+    for _ in range(n_random):
+        cls = rng.choice(OPT_CLASSES + ['PoissonGAM', 'LogisticGAM', 'GammaGAM'])
+        terms = gen_terms(rng, True, allow_lf=False, max_terms=2)
+        budget = 6 if quick else 9
+        names = [['lam'], ['lam'], ['lam', 'max_iter'], ['max_iter', 'lam'], ['lam', 'tol'], ['tol', 'lam'], ['max_iter'], ['tol'],
+                 ['max_iter', 'tol'], ['lam', 'max_iter', 'tol']]
+        chosen = rng.choice(names)
+        grids = []
+        left = budget
+        for i, pname in enumerate(chosen):
+            share = max(2, int(round(left ** (1.0 / (len(chosen) - i)))))
+            if pname == 'lam':
+                T = slots_of(terms, 'lam')
+                sh = rng.choice(['1d', '1d', '2d'] + (['nested'] if T >= 2 else []))
+                if sh == '1d':
+                    kk = min(rng.choice([2, 3, 4]), share)
+                    vals = [rng.choice(OPT_LAMS) for _ in range(kk)] if rng.random() < 0.2 else rng.sample(OPT_LAMS, kk)
+                    desc = dict(kind='1d', values=vals, container=rng.choice(['list', 'tuple', 'array']))
+                elif sh == '2d':
+                    desc = dict(kind='2d', rows=[[rng.choice(OPT_LAMS) for _ in range(T)] for _ in range(min(rng.choice([2, 3]), share))])
+                else:
+                    subs = [[rng.choice(OPT_LAMS)] for _ in range(T)]
+                    j = rng.randrange(T)
+                    subs[j] = rng.sample(OPT_LAMS, min(rng.choice([2, 3]), share))
+                    desc = dict(kind='nested', subs=subs, container=rng.choice(['list', 'tuple', 'arrays']))
+                size = grid_size(desc, T)
+            elif pname == 'max_iter':
+                kk = min(rng.choice([2, 3]), share)
+                desc = dict(kind='1d', values=rng.sample(OPT_MAX_ITER, kk), container=rng.choice(['list', 'tuple', 'array']))
+                size = kk
+            else:
+                kk = min(rng.choice([2, 3]), share)
+                desc = dict(kind='1d', values=rng.sample(OPT_TOL, kk), container=rng.choice(['list', 'tuple', 'array']))
+                size = kk
+            left = max(1, left // max(1, size))
+            grids.append(dict(param=pname, desc=desc))
+        known = KNOWN_SCALE[cls]
+        r = rng.random()
+        objective = ('auto' if rng.random() < 0.7 else None) if r < 0.7 else rng.choice(['AIC', 'AICc', 'UBRE' if known else 'GCV'])
+        specs.append(dict(cls=cls, scale=rng.choice([0.02, 0.04, 0.1]) if cls == 'LinearGAM-known' else None, terms=terms,
+                          n=rng.choice([60, 80, 100, 120]), d=3, data_seed=rng.randrange(10 ** 6), fitted=rng.random() < 0.5,
+                          keep_best=rng.random() < 0.6, return_scores=rng.random() < 0.8, objective=objective, grids=grids,
+                          weights=rng.random() < 0.3, exposure=(cls == 'PoissonGAM' and rng.random() < 0.5),
+                          tol=rng.choice(OPT_TOL + [1e-8, 1e-8]), max_iter=rng.choice(OPT_MAX_ITER + [1, 2, 3]), reverse=True))
+    return specs
+
+
 def gen_objective_specs(ctx):
     """full product class kind x objective name x fitted on a tiny grid"""
     specs = []
@@ -1209,7 +1298,12 @@ def run_real(ctx, pygam, lits):
     ctx.stream(st, 'real gridsearch with real fits vs model gridsearch (candidate multiset, skipped, winner, self afterwards, '
                    'return value, exception class); oracle: independent cold fits of the itertools product')
     ctx.stream(st_obj, 'class kind x objective name: resolved objective (observed through the scores) / rejection vs model resolveObjective')
-    specs = [(st, s) for s in gen_real_specs(ctx, lits)] + [(st_obj, s) for s in gen_objective_specs(ctx)]
+    st_opt = 'search.optimiser'
+    ctx.stream(st_opt, 'real gridsearch with small / large max_iter and loose / tight tol on the model and as grid dimensions, grid as given '
+                       'and reversed, fitted and unfitted start, vs model gridsearch; oracle: score and coefficients of every candidate '
+                       'equal those of an independent cold fit with the same max_iter / tol, converged or not')
+    specs = [(st, s) for s in gen_real_specs(ctx, lits)] + [(st_obj, s) for s in gen_objective_specs(ctx)] + \
+            [(st_opt, s) for s in gen_opt_specs(ctx, lits)]
     # admissible names: from a representative model of each class (public get_params) + plural names
     adm_cache = {}
     for _, s in specs:
@@ -1265,6 +1359,20 @@ def judge_real(ctx, stream, spec, res, prep, sout):
     sig = dict(cls=spec['cls'], fitted=spec['fitted'], keep_best=spec['keep_best'], rs=spec['return_scores'],
                objective=str(spec['objective']), shapes=shape_sig(spec), terms=[t['kind'] for t in spec['terms']],
                weights=bool(spec.get('weights')), exposure=bool(spec.get('exposure')))
+    if spec.get('max_iter', 200) != 200 or spec.get('tol', 1e-8) != 1e-8 or spec.get('reverse'):
+        sig['opt'] = [spec.get('max_iter'), spec.get('tol'), bool(spec.get('reverse'))]
+        ctx.count(stream + ' model max_iter', spec.get('max_iter'))
+        ctx.count(stream + ' model tol', spec.get('tol'))
+    for k, v in (res.get('cmp_classes') or {}).items():
+        ctx.count(stream + ' candidate vs independent fit (in-search/cold)', k, v)
+    for wo in (res.get('warm_only') or []):
+        # see the final report: on the unchanged tree a warm-started candidate that converges within max_iter is kept although
+        # the independent cold fit with the same max_iter does not converge, and their scores differ
+        ctx.count('suspected-defect', 'warm-started candidate converged within max_iter, independent cold fit did not: score / coefficients differ')
+        ex = ctx.extra.setdefault('suspected_defect_examples', [])
+        if len(ex) < 5:
+            ex.append(dict(cls=spec['cls'], max_iter=spec.get('max_iter'), tol=spec.get('tol'), fitted=spec['fitted'], grids=spec['grids'],
+                           data_seed=spec['data_seed'], n=spec['n'], terms=spec['terms'], detail=wo))
     ctx.count(stream + ' class', spec['cls'])
     ctx.count(stream + ' objective', str(spec['objective']))
     ctx.count(stream + ' outcome', res['exc'] or 'ok')
@@ -1760,7 +1868,7 @@ def replay(ctx, rp):
     case = rp.get('case') or {}
     spec = case.get('spec')
     st = rp.get('stream')
-    if spec is None or st not in ('grid.scripted', 'search.real', 'objective.table'):
+    if spec is None or st not in ('grid.scripted', 'search.real', 'objective.table', 'search.optimiser'):
         return run(ctx)
     ctx.stream(st, 'replay')
     if st == 'grid.scripted':
